@@ -1,7 +1,7 @@
 /* C15 bp registry arena probe: the real arena_alloc / expand_arena / cleanup_thread / find_chunk of src/urcu-bp.c driven sequentially (as they are
    under rcu_registry_lock), with mremap forced to fail or allowed to try (its real outcome is recorded as the oracle bit).  Every operation prints
    the slot as (chunk ordinal, index) and then the allocation bits of every chunk; addresses of live slots are checked never to move.
-   ocaml/bparena_driver.ml runs BpArena.alloc / free on the same operations. */
+   ocaml/bparena_driver.ml runs BpArena.alloc / free / prune on the same operations (X = the fork child's urcu_bp_prune_registry). */
 #define _GNU_SOURCE
 #include <stdio.h>
 #include <stdlib.h>
@@ -27,6 +27,9 @@ int main(int argc,char**argv){
       cds_list_add(&p->node,&registry);
       struct registry_chunk *c=find_chunk(p); int ci=chunk_ord(c), j=(int)(p-&c->readers[0]);
       printf("A %d -> %d %d |", last_ok, ci, j); dump(); live[nl]=p; lc[nl]=ci; lj[nl]=j; nl++; }
+    else if(nl>1 && (r>>40)%24==0){ /* child side of fork: only the forking thread's slot survives (urcu_bp_prune_registry) */
+      int i=(r>>16)%nl; for(int k2=0;k2<nl;k2++) live[k2]->tid = (k2==i) ? pthread_self() : (pthread_t)1;
+      urcu_bp_prune_registry(); printf("X %d %d |",lc[i],lj[i]); dump(); live[0]=live[i]; lc[0]=lc[i]; lj[0]=lj[i]; nl=1; }
     else if(nl){ int i=(r>>16)%nl; struct rcu_reader *p=live[i]; struct registry_chunk *c=find_chunk(p);
       if(chunk_ord(c)!=lc[i] || (int)(p-&c->readers[0])!=lj[i]) printf("BUG slot moved\n");
       cleanup_thread(c,p); printf("F %d %d |",lc[i],lj[i]); dump(); live[i]=live[nl-1]; lc[i]=lc[nl-1]; lj[i]=lj[nl-1]; nl--; }
